@@ -350,6 +350,43 @@ func EnumMarkup(text []byte, member string) []Fault {
 			i += j + 1
 		}
 	}
+	// identifier-like attribute values are references between elements (style ids, relationship
+	// ids, list ids): retarget each one to every other identifier of the part, which also
+	// produces self-references and cycles
+	var ids []string
+	seenID := map[string]bool{}
+	type occ struct{ pos, n int }
+	var occs []occ
+	for i := 0; i < n; i++ {
+		if text[i] != '"' {
+			continue
+		}
+		j := bytes.IndexByte(text[i+1:], '"')
+		if j < 0 {
+			break
+		}
+		val := string(text[i+1 : i+1+j])
+		if isIdent(val) && i > 0 && text[i-1] == '=' {
+			occs = append(occs, occ{i + 1, j})
+			if !seenID[val] && len(ids) < 12 {
+				seenID[val] = true
+				ids = append(ids, val)
+			}
+		}
+		i += j + 1
+	}
+	if len(occs) <= 400 {
+		for _, o := range occs {
+			cur := string(text[o.pos : o.pos+o.n])
+			k := 0
+			for _, id := range ids {
+				if id != cur && k < 6 {
+					out = append(out, mk(o.pos, o.n, id, "idref-attr"))
+					k++
+				}
+			}
+		}
+	}
 	// element texts that are numbers (e.g. <v>12</v>)
 	for i := 0; i < n; i++ {
 		if text[i] != '>' {
@@ -369,6 +406,19 @@ func EnumMarkup(text []byte, member string) []Fault {
 		}
 	}
 	return out
+}
+
+func isIdent(s string) bool {
+	if len(s) < 2 || len(s) > 24 {
+		return false
+	}
+	for i, c := range s {
+		letter := c >= 'a' && c <= 'z' || c >= 'A' && c <= 'Z' || c == '_'
+		if !letter && !(i > 0 && c >= '0' && c <= '9') {
+			return false
+		}
+	}
+	return true
 }
 
 func isNumber(s string) bool {
